@@ -179,6 +179,7 @@ class World(object):
         self.blackhole = {}  # direction -> (tick until which, size above which) datagrams are lost
         self.drop_rule = None   # fn(world, dgram) -> True: the datagram is lost (content-selective loss, decided by the harness)
         self.cb_raise = {}   # send-callback tag -> "always" | True | False: the user's callback raises when told that value
+        self.cb_action = {}  # send-callback tag -> f(success): what the application does from INSIDE that callback (sends, closes ...)
         self.handler_log = []
         self.handler_hooks = {}
         self.callback_log = []
@@ -513,6 +514,9 @@ class World(object):
             self.callback_log.append((end, tag, bool(success), self.vt.now))
             for m in self.monitors:
                 m.on_callback(self, end, tag, bool(success))
+            act = self.cb_action.get(tag)
+            if act is not None:
+                act(bool(success))
             mode = self.cb_raise.get(tag, "no")
             if mode == "always" or mode == bool(success):
                 raise RuntimeError("user callback raises (injected by the harness)")
